@@ -2,6 +2,8 @@
 import json, os, re, sys, time
 
 VERIF = os.path.dirname(os.path.dirname(os.path.dirname(os.path.abspath(__file__))))
+# selftests on scratch copies redirect evidence/replay so that the real evidence is not overwritten
+OUT = os.environ.get("VERIF_OUT") or VERIF
 
 
 def load_known(pid):
@@ -90,8 +92,8 @@ class Check:
                 kf.append((full, known[full]))
             else:
                 viol.append((r, k, d, w))
-        os.makedirs(os.path.join(VERIF, "evidence"), exist_ok=True)
-        os.makedirs(os.path.join(VERIF, "replay"), exist_ok=True)
+        os.makedirs(os.path.join(OUT, "evidence"), exist_ok=True)
+        os.makedirs(os.path.join(OUT, "replay"), exist_ok=True)
         n = len(self.obls)
         ok_n = sum(1 for o in self.obls if o[2])
         cov = {
@@ -119,13 +121,13 @@ class Check:
             "wall_s": round(time.time() - self.t0, 3),
             "violations": len(viol),
         }
-        with open(os.path.join(VERIF, "evidence", self.pid + ".json"), "w") as fh:
+        with open(os.path.join(OUT, "evidence", self.pid + ".json"), "w") as fh:
             json.dump(ev, fh, indent=1, default=str)
         for full, what in kf:
             print("KNOWN-FINDING: property=%s %s" % (self.pid, what))
         for r, k, d, w in viol:
             safe = re.sub(r"[^A-Za-z0-9_.-]+", "_", r + "-" + k)[:120]
-            rp = os.path.join(VERIF, "replay", "%s-%s.json" % (self.pid, safe))
+            rp = os.path.join(OUT, "replay", "%s-%s.json" % (self.pid, safe))
             with open(rp, "w") as fh:
                 json.dump({"property": self.pid, "rule": r, "key": k, "detail": d, "where": w, "repo": self.repo}, fh, indent=1)
             print("%s: rule %s instance %s\n    %s" % (w or "(no location)", r, k, d))
